@@ -116,7 +116,7 @@ func psEvents(r *rand.Rand) map[string][]string {
 		if r.Intn(2) == 0 {
 			n := 1 + r.Intn(2)
 			for i := 0; i < n; i++ {
-				ev[k] = append(ev[k], pick(r, []string{"abc", "ab", "x", "", "x/1", "Tx", "7a", "5"}))
+				ev[k] = append(ev[k], pick(r, []string{"abc", "ab", "x", "", "x/1", "Tx", "7a", "5", "a b", "a  b", "a\tb", "a b", "a  b"}))
 			}
 		}
 	}
@@ -156,6 +156,25 @@ func genPubSub(r *rand.Rand, emit func(core.Case), n int, long bool) {
 				}
 			}
 			pool[i] = q{ast, render(ast, r)}
+		}
+		if r.Intn(3) == 0 {
+			// several subscribers whose queries differ only by the whitespace inside a quoted value (and
+			// would be the same query after collapsing whitespace): each must get ITS matches only
+			k := pick(r, []string{"a.b", "a.c"})
+			op := pick(r, []string{"eq", "eq", "ct"})
+			vals := []string{"a b", "a  b", "a\tb"}
+			r.Shuffle(len(vals), func(i, j int) { vals[i], vals[j] = vals[j], vals[i] })
+			nv := 2 + r.Intn(2)
+			for i := 0; i < nv; i++ {
+				ast := []cond{{Key: k, Op: op, Kind: 's', S: vals[i]}}
+				if r.Intn(3) == 0 {
+					ast = append([]cond{{Key: "tm.event", Op: "eq", Kind: 's', S: "Tx"}}, ast...)
+				}
+				// the same spacing between the tokens for all of them: only the quoted value differs
+				pool = append(pool, q{ast, render(ast, nil)})
+			}
+			nq = len(pool)
+			featHist["pubsub-whitespace-twin-queries"]++
 		}
 		clients := []string{"c1", "c2", "c3", "c4"}[:1+r.Intn(4)]
 		steps := 10 + r.Intn(30)
@@ -646,6 +665,77 @@ func rangeOp(r *rand.Rand, block bool) string {
 	return fmt.Sprintf("%s q=%s ast=%s", name, hx(render(ast, r)), encAst(ast))
 }
 
+// ---- attributes of ONE tx whose "compositeKey"+"value" concatenations collide ----
+
+func genCollide(r *rand.Rand, emit func(core.Case), n int) {
+	// (type, key, value) families with equal concatenation type.key+value
+	fams := [][][3]string{
+		{{"t", "to", "1abc"}, {"t", "to1", "abc"}, {"t", "to1a", "bc"}, {"t", "to1ab", "c"}},
+		{{"a", "b", "cd"}, {"a", "bc", "d"}, {"a", "bcd", ""}},
+		{{"acc", "n", "12"}, {"acc", "n1", "2"}},
+	}
+	for c := 0; c < n; c++ {
+		var ops []string
+		var hashes [][]byte
+		h := int64(1 + r.Intn(3))
+		ctr := 0
+		var used [][3]string
+		for b := 0; b < 2+r.Intn(3); b++ {
+			items := make([]txItem, 1+r.Intn(2))
+			for i := range items {
+				ctr++
+				fam := fams[r.Intn(len(fams))]
+				perm := r.Perm(len(fam))
+				k := 2 + r.Intn(len(fam)-1)
+				var evs []abci.Event
+				oneEvent := r.Intn(2) == 0
+				for _, pi := range perm[:k] {
+					a := fam[pi]
+					used = append(used, a)
+					at := abci.EventAttribute{Key: []byte(a[1]), Value: []byte(a[2]), Index: true}
+					if oneEvent && len(evs) > 0 && evs[len(evs)-1].Type == a[0] {
+						evs[len(evs)-1].Attributes = append(evs[len(evs)-1].Attributes, at)
+					} else {
+						evs = append(evs, abci.Event{Type: a[0], Attributes: []abci.EventAttribute{at}})
+					}
+				}
+				if r.Intn(3) == 0 { // a genuine repetition of the same attribute: indexed once, found all the same
+					evs = append(evs, evs[0])
+				}
+				items[i] = txItem{Tx: []byte(fmt.Sprintf("ctx-%d-%d", c, ctr)), Events: evs}
+				hashes = append(hashes, txHash(items[i].Tx))
+			}
+			ops = append(ops, fmt.Sprintf("addbatch height=%d txs=%s", h, encTxs(items)))
+			h += int64(1 + r.Intn(2))
+		}
+		for s := 0; s < 8; s++ {
+			a := used[r.Intn(len(used))]
+			ck := a[0] + "." + a[1]
+			var ast []cond
+			switch r.Intn(4) {
+			case 0:
+				ast = []cond{{Key: ck, Op: "ex", Kind: 'n'}}
+			case 1:
+				sub := a[2]
+				if len(sub) > 1 {
+					sub = sub[r.Intn(len(sub)-1):]
+				}
+				ast = []cond{{Key: ck, Op: "ct", Kind: 's', S: sub}}
+			default:
+				ast = []cond{{Key: ck, Op: "eq", Kind: 's', S: a[2]}}
+			}
+			if r.Intn(4) == 0 {
+				ast = append(ast, cond{Key: "tx.height", Op: "ge", Kind: 'i', S: "1"})
+			}
+			ops = append(ops, fmt.Sprintf("search q=%s ast=%s", hx(render(ast, r)), encAst(ast)))
+		}
+		for _, hs := range hashes {
+			ops = append(ops, "get hash="+hx(string(hs)))
+		}
+		emit(core.Case{Kind: "txindex-collide", Ops: ops})
+	}
+}
+
 func gen(r *rand.Rand, tier string, emit func(core.Case)) {
 	n := 150
 	if tier == "thorough" {
@@ -660,6 +750,7 @@ func gen(r *rand.Rand, tier string, emit func(core.Case)) {
 	genBlockIndex(r, emit, n/2, idxClean, "blockindex-clean")
 	genBlockIndex(r, emit, n/2, idxHostile, "blockindex-hostile")
 	genRange(r, emit, n)
+	genCollide(r, emit, n/2)
 	genService(r, emit, n/2, idxClean, "service-clean")
 	genService(r, emit, n/3, idxHostile, "service-hostile")
 }
